@@ -32,8 +32,14 @@ ASSUMPTIONS = ["values are well separated (|a-b| > 1e-5*max|v| + 1e-8: float ras
                "transform = 6 finite numbers (a, b, c, d, e, f): x' = a*x + b*y + c, y' = d*x + e*y + f"]
 BUDGET_S = {"quick": 240, "thorough": 900}
 
-DTYPES = ["int64", "float64", "int32", "float32", "uint32"]
+DTYPES = ["int64", "float64", "int32", "float32", "uint32", "uint64", "int16", "uint8", "int8", "uint16"]
 POOLS = {
+    # every integer width incl. values in the top half of the unsigned ranges (hashed 64-bit ids) and both ends of the signed ones
+    "uint64": [0, 1, 2, 3, 255, 2 ** 40, 2 ** 63 - 1, 2 ** 63, 2 ** 63 + 12345, 2 ** 64 - 1],
+    "int16": [0, 1, 2, 3, -1, -7, 255, 1000, 32767, -32768],
+    "uint16": [0, 1, 2, 3, 7, 255, 1000, 32768, 65535, 40000],
+    "uint8": [0, 1, 2, 3, 7, 127, 128, 200, 254, 255],
+    "int8": [0, 1, 2, 3, -1, -7, 127, -128, 100, -100],
     "int32": [0, 1, 2, 3, -1, -7, 255, 1000, 2147483647, -2147483648],
     "int64": [0, 1, 2, 3, -1, -7, 255, 1000, 2 ** 40, -(2 ** 40) - 1],
     "uint32": [0, 1, 2, 3, 7, 255, 1000, 65536, 4000000000, 4294967295],
@@ -471,7 +477,7 @@ def shards(tier):
         plan = [("bin_i64", 12, 2), ("bin_f64", 12, 2), ("ter_i32", 9, 4), ("ter_mask_f32", 9, 4)]
     lay = ["F", "view", "C"]
     for i in range(nrand):
-        dts = [DTYPES[i % 5]]       # one value dtype per shard: every (dtype, mask dtype, transform) signature costs ~2 s of JIT
+        dts = [DTYPES[i % len(DTYPES)]]       # one value dtype per shard: every (dtype, mask dtype, transform) signature costs ~2 s of JIT
         mdt = MASK_DTYPES[i % len(MASK_DTYPES)]
         layouts = ("C", "C", lay[i % 3])
         out.append(("rand#%d" % i, lambda ctx, dts=dts, mdt=mdt, layouts=layouts, it=(i % 4 == 3): drive_hypothesis(
